@@ -635,6 +635,26 @@ class Interp:
             v = self._import_value(tmod, tname)
         elif name in _SAFE_BUILTINS:
             return _SAFE_BUILTINS[name]
+        elif name in ('getattr', 'hasattr', 'setattr'):
+            _missing = object()
+
+            def _getattr(obj, attr, default=_missing):
+                try:
+                    return self.getattr(mod, None, obj, attr)
+                except (AnalysisError, AttributeError):
+                    if default is _missing:
+                        raise InterpRaise('AttributeError')
+                    return default
+
+            def _hasattr(obj, attr):
+                return _getattr(obj, attr, _missing) is not _missing
+
+            def _setattr(obj, attr, value):
+                if isinstance(obj, Instance):
+                    obj._d[attr] = value
+                else:
+                    setattr(obj, attr, value)
+            return {'getattr': _getattr, 'hasattr': _hasattr, 'setattr': _setattr}[name]
         elif name == '__name__':
             return mod.name
         else:
